@@ -666,10 +666,153 @@ def r05_7(prog, tab=None, rid="R05.7", only=None, floor=12):
     return r
 
 
+def _block_use_def(f, bid):
+    """(use, def) of local/param variables for a block, use = read before any write in the block"""
+    from .termination import _reads, _lhs_kind
+    use, dfn = set(), set()
+
+    def rd(tree):
+        out = []
+        _reads(tree, out)
+        for v in out:
+            if v not in dfn:
+                use.add(v)
+    b = f.blocks[bid]
+    for e in b.ev:
+        k = e["k"]
+        if k == "assign":
+            if "rhs" in e:
+                rd(e["rhs"]["tree"])
+            lt = strip_casts(e.get("lhs_tree"))
+            if is_var(lt):
+                if e.get("op") != "=" and lt[1] not in dfn:
+                    use.add(lt[1])
+                dfn.add(lt[1])
+            elif lt is not None:
+                rd(lt)
+        elif k == "decl":
+            if "init" in e:
+                rd(e["init"]["tree"])
+            dfn.add(e["id"])
+        elif k == "call":
+            for a in e.get("args", []):
+                t = strip_casts(a.get("tree"))
+                if isinstance(t, list) and t and t[0] == "un" and t[1] == "&" and is_var(t[2]):
+                    dfn.add(strip_casts(t[2])[1])        # an out-parameter (the fetchers write, never read, it)
+                else:
+                    rd(a.get("tree"))
+        elif k == "return" and e.get("expr"):
+            rd(e["expr"]["tree"])
+        elif k == "assert":
+            rd(e["cond"]["tree"])
+    if b.term and "cond" in b.term:
+        rd(b.term["cond"].get("full_tree") or b.term["cond"]["tree"])
+    return use, dfn
+
+
+def r05_8(prog, tab):
+    """What a restartable loop carries from one iteration to the next survives a restart.  In a decoder function that
+    records its progress in the decoder context (it stores a local into an asn_struct_ctx_t field) and has a loop from
+    inside which it can ask for more data: every local that an iteration reads from the previous one (live around the
+    back edge, written in the loop) is a parameter (the caller re-presents the unconsumed input), is stored into the
+    context or the returned result somewhere in the function, or is initialised from the context.  Anything else is
+    re-initialised by the restart while the loop resumes in the middle: the resumed call decides on different state
+    than the uninterrupted one."""
+    r = Rule("R05.8", "in a loop that can be left with RC_WMORE and resumed from the saved step, every loop-carried local is saved in (or restored from) the context or the result", floor=10)
+    exc = {(x["function"], x["key"]): x["reason"] for x in tab.get("r05_8_exceptions", [])}
+    for f in scope_decoders(prog):
+        ctx_saved = set()          # locals whose value is stored into a context or result field
+        ctx_fields_stored = False
+        for b, i, e in f.events("assign"):
+            lt = strip_casts(e.get("lhs_tree"))
+            if not (isinstance(lt, list) and lt and lt[0] == "member") or "rhs" not in e:
+                continue
+            into_ctx = "asn_struct_ctx" in str(lt[4])
+            into_rval = "asn_dec_rval" in str(lt[4])
+            if not (into_ctx or into_rval):
+                continue
+            if into_ctx:
+                ctx_fields_stored = True
+            for n in walk(e["rhs"]["tree"]):
+                if n[0] == "var":
+                    ctx_saved.add(n[1])
+        if not ctx_fields_stored:
+            continue
+        params = {p["id"] for p in f.params}
+        # locals initialised (anywhere) from an expression that reads a context field or another such local
+        from_ctx = set()
+        changed = True
+        while changed:
+            changed = False
+            for b, i, e in f.events():
+                tr, vid = None, None
+                if e["k"] == "decl" and "init" in e:
+                    vid, tr = e["id"], e["init"]["tree"]
+                elif e["k"] == "assign" and "rhs" in e and is_var(e.get("lhs_tree")) and e.get("op") == "=":
+                    vid, tr = strip_casts(e["lhs_tree"])[1], e["rhs"]["tree"]
+                if vid is None or vid in from_ctx:
+                    continue
+                if any((n[0] == "member" and "asn_struct_ctx" in str(n[4])) or (n[0] == "var" and n[1] in from_ctx) for n in walk(tr)):
+                    from_ctx.add(vid)
+                    changed = True
+        rets = {(b.id, i): codes for b, i, e, codes in dec_returns(f)}
+        ud = {bid: _block_use_def(f, bid) for bid in f.blocks}
+        for h, body in f.loops():
+            # the returns written inside the loop (their blocks leave the natural loop, so go by source position)
+            lines = [e_["line"] for bid in body for e_ in f.blocks[bid].ev if e_.get("line")] + \
+                    [f.blocks[bid].term["line"] for bid in body if f.blocks[bid].term and f.blocks[bid].term.get("line")]
+            lo, hi = (min(lines), max(lines)) if lines else (0, -1)
+            wmore = [k for k, codes in rets.items() if any(c[0] == "WMORE" for c in codes)
+                     and lo <= (f.blocks[k[0]].ev[k[1]].get("line") or -1) <= hi]
+            # ... and that resume: the return reports consumed input, or the context was written on the way to it.  (A
+            # WMORE with consumed == 0 and an untouched context makes the next call start from scratch.)
+            cw_blocks = {b_.id for b_, i_, e_ in f.events() if is_ctx_write(e_)}
+            wmore = [k for k in wmore if any(c[0] == "WMORE" and c[1] != "0" for c in rets[k])
+                     or any(k[0] in f.reachable_from([cb]) for cb in cw_blocks if cb != k[0])
+                     or any(is_ctx_write(e_) for e_ in f.blocks[k[0]].ev[:k[1]])]
+            if not wmore:
+                # returns reached from the body without leaving the loop's blocks are in the body; RETURN() macros are
+                continue
+            # liveness inside the body only (what an iteration needs from the previous one)
+            live_in = {bid: set() for bid in body}
+            ch = True
+            while ch:
+                ch = False
+                for bid in body:
+                    out = set()
+                    for s_ in f.blocks[bid].succs():
+                        if s_ in body:
+                            out |= live_in[s_]
+                    use, dfn = ud[bid]
+                    nv = use | (out - dfn)
+                    if nv != live_in[bid]:
+                        live_in[bid] = nv
+                        ch = True
+            written = set().union(*[ud[bid][1] for bid in body])
+            carried = {v for v in (live_in[h] & written) if v.split("@")[0] != v or True}
+            line = (f.blocks[h].term or {}).get("line")
+            for v in sorted(carried):
+                nm = v.split("@")[0]
+                key = "carried:%s@loop%s" % (nm, line)
+                if v in params:
+                    r.ok(f, key, "a parameter: the caller re-presents the unconsumed input", line, nontrivial=False)
+                elif v in ctx_saved:
+                    r.ok(f, key, "stored into the context or the returned result", line)
+                elif v in from_ctx:
+                    r.ok(f, key, "initialised from the context", line)
+                elif (f.name, key) in exc:
+                    r.exc(f, key, exc[(f.name, key)], line)
+                else:
+                    r.bad(f, key, "`%s` is carried from one iteration of this loop to the next, the loop can be left with RC_WMORE and resumed from "
+                                  "the step saved in the context, and `%s` is neither saved nor restored: the resumed call starts with its initial "
+                                  "value in the middle of the loop" % (nm, nm), line)
+    return r
+
+
 def run(ctx):
     prog = ctx.prog("S")
     tab = load_tables("c05")
-    return run_rules(prog, tab) + [r05_3(prog, tab), r05_4(prog, tab), r05_5(prog, tab), r05_6(prog, tab), r05_7(prog, tab)]
+    return run_rules(prog, tab) + [r05_3(prog, tab), r05_4(prog, tab), r05_5(prog, tab), r05_6(prog, tab), r05_7(prog, tab), r05_8(prog, tab)]
 
 
 def thorough(ctx):
